@@ -5,6 +5,7 @@ import (
 	"encoding/json"
 	"fmt"
 	"strings"
+	"sync"
 	"unicode/utf8"
 
 	"github.com/zmap/zlint/v3"
@@ -110,7 +111,7 @@ func checkC14(ctx *core.Ctx, rep *core.Report) {
 	}
 	sel := pickSeeds(all, argInt(ctx, "nth", nth))
 	g := lint.GlobalRegistry()
-	xstate.Explore(ctx, rep, xstate.Options{Seeds: sel, Depth: 1}, func(st *xstate.State) {
+	xstate.Explore(ctx, rep, xstate.Options{Seeds: sel, Depth: 1, NoCompound: ctx.Quick()}, func(st *xstate.State) {
 		rs, p := zl.Lint(st.Obj, g)
 		if p != nil || rs == nil {
 			return // C01/C02 territory
@@ -126,6 +127,101 @@ func checkC14(ctx *core.Ctx, rep *core.Report) {
 		}
 		rep.Sample(2, map[string]interface{}{"seed": st.Seed.Name, "path": st.Path})
 	})
+}
+
+// c14Retention: all sequences of ≤ 3 direct encodings (LintStatus.MarshalJSON, LintSource.MarshalJSON,
+// json.Marshal of a whole result in between), every returned byte slice *kept* until the end of the
+// sequence and then compared with its label — an encoder that hands out a recycled buffer is exact
+// call by call and wrong as soon as two encodings are alive at once. Followed by a concurrent pass
+// (8 goroutines, a detector, labelled as such) over the same encodings.
+func c14Retention(rep *core.Report) {
+	art := func(x string) map[string]interface{} { return map[string]interface{}{"op": "retention", "item": x} }
+	type enc struct {
+		name string
+		want string
+		f    func() ([]byte, error)
+	}
+	var alphabet []enc
+	for st := lint.LintStatus(0); st <= 7; st++ {
+		st := st
+		alphabet = append(alphabet, enc{"status:" + c14Labels[st], `"` + c14Labels[st] + `"`, func() ([]byte, error) { return st.MarshalJSON() }})
+	}
+	for _, src := range lint.GlobalRegistry().Sources() {
+		src := src
+		if len(alphabet) >= 11 {
+			break
+		}
+		alphabet = append(alphabet, enc{"source:" + string(src), `"` + string(src) + `"`, func() ([]byte, error) { return json.Marshal(src) }})
+	}
+	resEnc := func() ([]byte, error) { return json.Marshal(&lint.LintResult{Status: lint.Warn, Details: "x"}) }
+	if b, err := resEnc(); err == nil { // one call alone, copied at once, is the expectation for the result object
+		alphabet = append(alphabet, enc{"result", string(append([]byte(nil), b...)), resEnc})
+	}
+	var rec func(seq []int)
+	rec = func(seq []int) {
+		if len(seq) > 0 {
+			rep.Inc("states")
+			rep.Inc("retention_sequences")
+			outs := make([][]byte, len(seq))
+			for i, a := range seq {
+				b, err := alphabet[a].f()
+				rep.Inc("transitions")
+				if err != nil {
+					rep.Violate("C14|retention|error", alphabet[a].name+": "+err.Error(), art(alphabet[a].name))
+					return
+				}
+				outs[i] = b
+			}
+			rep.Inc("validated")
+			for i, a := range seq {
+				if string(outs[i]) != alphabet[a].want {
+					var names []string
+					for _, x := range seq {
+						names = append(names, alphabet[x].name)
+					}
+					rep.Violate("C14|retention|encoding_overwritten", fmt.Sprintf("after the encodings %v, the bytes returned for %s read %q instead of %s: a later encoding overwrote an earlier one", names, alphabet[a].name, outs[i], alphabet[a].want), art(strings.Join(names, ",")))
+					return
+				}
+			}
+		}
+		if len(seq) == 3 {
+			return
+		}
+		for i := range alphabet {
+			rec(append(append([]int{}, seq...), i))
+		}
+	}
+	rec(nil)
+	// concurrent pass: the same encodings from 8 goroutines at once
+	var wg sync.WaitGroup
+	bad := make([]string, 8)
+	for w := 0; w < 8; w++ {
+		w := w
+		wg.Add(1)
+		go func() {
+			defer wg.Done()
+			for i := 0; i < 4000 && bad[w] == ""; i++ {
+				st := lint.LintStatus((i + w) % 8)
+				rs := map[string]*lint.LintResult{"e_a": {Status: st, Details: "d"}, "w_b": {Status: lint.LintStatus((i + 3*w + 1) % 8)}}
+				b, err := json.Marshal(rs)
+				var back map[string]*lint.LintResult
+				if err == nil {
+					err = json.Unmarshal(b, &back)
+				}
+				if err != nil || back["e_a"] == nil || back["w_b"] == nil || back["e_a"].Status != st || back["w_b"].Status != rs["w_b"].Status {
+					bad[w] = fmt.Sprintf("%s (err %v)", b, err)
+				}
+			}
+		}()
+	}
+	wg.Wait()
+	rep.Add("concurrent_roundtrips", 8*4000)
+	for _, b := range bad {
+		if b != "" {
+			rep.Violate("C14|concurrent_roundtrip", "JSON round trip of a result map from 8 goroutines at once does not reproduce the statuses: "+b, art("concurrent"))
+			break
+		}
+	}
 }
 
 func c14Labelspace(rep *core.Report) {
@@ -153,6 +249,7 @@ func c14Labelspace(rep *core.Report) {
 		}
 		rep.Inc("validated")
 	}
+	c14Retention(rep)
 	// synthetic result sets: every status in a result, with each flag combination
 	for st := lint.LintStatus(0); st <= 7; st++ {
 		for flags := 0; flags < 16; flags++ {
